@@ -144,6 +144,8 @@ struct World {
     msgs: Vec<(usize, Vec<usize>)>,
     /// unknown message ids seen in taps (should stay 0)
     strays: usize,
+    /// the network did not become quiescent
+    stalled: bool,
 }
 
 const UNKNOWN: usize = 9999;
@@ -195,6 +197,7 @@ impl World {
             mids: HashMap::new(),
             msgs: vec![],
             strays: 0,
+            stalled: false,
         };
         w.setup(rng);
         w
@@ -332,9 +335,15 @@ impl World {
         progressed || self.flag.0.load(Ordering::SeqCst)
     }
 
+    /// poll until nothing moves any more.  A network that keeps moving (never on the unchanged
+    /// code: the model's termination measure bounds the receptions) is reported as `livelock`.
     fn quiesce(&mut self, rng: &mut Rng) {
+        if self.stalled {
+            return;
+        }
         let mut idle = 0;
-        for _ in 0..1_000_000 {
+        let start = self.log.len();
+        for _ in 0..100_000 {
             if self.round(rng) {
                 idle = 0;
             } else {
@@ -343,8 +352,11 @@ impl World {
                     return;
                 }
             }
+            if self.log.len() - start > 20_000 {
+                break;
+            }
         }
-        panic!("no quiescence");
+        self.stalled = true;
     }
 
     /// exactly one heartbeat on every node (the clock only moves here), run to quiescence
@@ -735,6 +747,9 @@ fn run_case(out: &mut Out, idx: u64, class: &str, p: Params, script: &[Cmd]) {
     let w = World::new(p, &mut rng);
     let mut r = Runner { w, rng, lines: vec![], fwd: vec![], nontrivial: false, dups: 0 };
     for c in script {
+        if r.w.stalled {
+            break;
+        }
         match c {
             Cmd::Hb(k) => r.do_hb(*k),
             Cmd::Snap => r.do_snap(),
@@ -744,6 +759,10 @@ fn run_case(out: &mut Out, idx: u64, class: &str, p: Params, script: &[Cmd]) {
                 }
             }
         }
+    }
+    if r.w.stalled {
+        r.emit_log(None);
+        r.op("livelock".into(), "-".into());
     }
     tap::disable();
     let nt = r.nontrivial && r.w.strays == 0;
